@@ -1010,6 +1010,23 @@ pub fn pin_family(out: &mut dyn Write, rng: &mut Rng, stride: u64) {
                                 });
                                 let Some(ek) = ek else { continue };
                                 if bd.place(p(ek), !me, Piece::King).is_err() { continue; }
+                                // half of the cases: a SECOND man of the same kind pinned along another direction by its own pinner
+                                // (each pinned man must stay on ITS line, not on the union of the pin lines)
+                                if rng.chance(1, 2) {
+                                    let di2 = rng.below(8) as usize;
+                                    let d2 = dirs[di2];
+                                    let (a2, b3) = (1 + rng.below(3) as i32, 1 + rng.below(3) as i32);
+                                    let (pf2, pr2) = (kf + d2.0 * a2, kr + d2.1 * a2);
+                                    let (sf2, sr2) = (pf2 + d2.0 * b3, pr2 + d2.1 * b3);
+                                    if di2 != di && (0..8).contains(&pf2) && (0..8).contains(&pr2) && (0..8).contains(&sf2) && (0..8).contains(&sr2)
+                                        && !(pk == Piece::Pawn && (pr2 == 0 || pr2 == 7))
+                                    {
+                                        let sk2 = if di2 < 4 { Piece::Rook } else { Piece::Bishop };
+                                        if bd.place(p((pr2 * 8 + pf2) as u8), me, pk).is_ok() {
+                                            let _ = bd.place(p((sr2 * 8 + sf2) as u8), !me, sk2);
+                                        }
+                                    }
+                                }
                                 // optionally an extra enemy man (possible second attacker / capture target for the pinned man)
                                 let extra = rng.below(4);
                                 if extra > 0 {
@@ -1142,7 +1159,7 @@ pub fn sparse_boards(rng: &mut Rng, n: usize) -> Vec<Board> {
             }
             if !placed { continue; }
         }
-        let men = 1 + rng.below(6);
+        let men = if rng.chance(1, 5) { 7 + rng.below(12) } else { 1 + rng.below(6) };
         for _ in 0..men {
             let c = *rng.pick(b"PPPpppNnBbRrQq");
             let s = if c == b'P' || c == b'p' {
